@@ -17,6 +17,15 @@ CHECKS = {
         "pinned, only its behaviour on generated sequences.",
         "DESIGN.md section 4, C19",
     ),
+    "C17": (
+        "Hypothesis typed-grammar generation (method/function form drawn per operator) + exhaustive name x position stratum; "
+        "oracle = reference transform (dump equality), no method-form operator left, idempotence, CPython value differential",
+        "Randomised and bounded-exhaustive search over queries mixing method-form and function-form operator calls with "
+        "look-alike methods and attribute references; decided by an independent bottom-up reference transform compared by "
+        "ast.dump, a residual scan, a second application, and evaluation of both forms on generated sequences.",
+        "Trusts CPython's compile/eval and ast.dump; keyword arguments on operator calls are out of the statement's domain.",
+        "DESIGN.md section 4, C17",
+    ),
 }
 
 NOT_YET = "check not built yet in this round (work in progress; see DESIGN.md section 4 for the planned generator/oracle)"
